@@ -19,8 +19,8 @@ PROPS = {
         # arms under contract: bounded stand-in through the real front end + code generator (emit_binop_expr, the
         # lowering's two arithmetic arms and the checker's compound arm are under contract in the units above)
         'bounded_standins': [
-            {'oracle': 'diffrun::C04', 'cases': 0, 'functions': 40, 'programs_quick': 1, 'programs_thorough': 6, 'function': 'the whole pipeline (lexer, parser, checker, lowering, code generator, project generator, rustc, the program) on / // % in 12 statement / operand shapes (nested, mixed with + - *, int(..), let, compound on local / field / element, lambda, bare statement) over 22 operand forms',
-             'bound': 'a seeded SAMPLE (not exhaustive): 1 program (quick) / 6 programs (thorough) of 40 generated test functions each, every function called with 3 argument sets; the program must build (rustc judges the declared numeric kind of every expression) and every printed value must equal the documented semantics computed with Python; plus programs that must stop with the documented error text after printing a marker (C04: 10 zero-divisor forms, C05: 10 out-of-range / zero-step forms; one per quick run, all in a thorough run); shapes that need parentheses around + - * sub-expressions and a few shapes that trip unrelated compiler defects are not generated (listed in tools/diffrun.py)'},
+            {'oracle': 'diffrun::C04', 'cases': 0, 'functions': 30, 'programs_quick': 2, 'programs_thorough': 6, 'function': 'the whole pipeline (lexer, parser, checker, lowering, code generator, project generator, rustc, the program) on / // % in 12 statement / operand shapes (nested, mixed with + - *, int(..), let, compound on local / field / element, lambda, bare statement) over 22 operand forms',
+             'bound': 'a seeded SAMPLE (not exhaustive): 2 programs (quick) / 6 programs (thorough) of 30 generated test functions each — alternately as one file and as an IMPORTED module next to the main file —, every function called with 3 argument sets; the program must build (rustc judges the declared numeric kind of every expression) and every printed value must equal the documented semantics computed with Python; plus programs that must stop with the documented error text after printing a marker (C04: 11 zero-divisor forms, C05: 10 out-of-range / zero-step forms; two per quick run, all in a thorough run); shapes that need parentheses around + - * sub-expressions and a few shapes that trip unrelated compiler defects are not generated (listed in tools/diffrun.py)'},
             {'oracle': 'incan::emit_division', 'cases': 132, 'function': 'parser + lowering of `L op R` / `T op= R` (compound assignment on locals, fields and list elements; const initializers) and emit_binop_expr',
              'bound': 'exhaustive over / // % x int/float left x int/float right x 11 forms (plain, plain with a negated left operand, compound on a local / field / list element, const initializer over literals, bare expression statement, inside int(..), parenthesised operands, call result as left operand, body of a lambda with an untyped parameter); fixed program shapes; checks helper, operand order and promotions in the generated call (a folded const must have Python\'s value)'},
         ],
@@ -60,8 +60,8 @@ PROPS = {
         'bounded_standins': [
             {'oracle': 'incan::emit_range', 'cases': 155, 'function': 'emit_range_call (call site of the runtime range) and the lowering of for loops over range',
              'bound': 'exhaustive over range(e), range(s, e), range(s, e, k) x {variable, 0, negative literal, 2, expression} per written argument; one fixed program shape; checks argument positions and the defaults 0 / 1 in the generated call'},
-            {'oracle': 'diffrun::C05', 'cases': 0, 'functions': 40, 'programs_quick': 1, 'programs_thorough': 6, 'function': 'the whole pipeline (lexer, parser, checker, lowering, code generator, project generator, rustc, the program) on index / slice / range forms (objects: variable, field, call result, nested; slices with random bounds and steps; for over slices; range hashes; nested and element assignment; f-strings; match-bound lists)',
-             'bound': 'a seeded SAMPLE (not exhaustive): 1 program (quick) / 6 programs (thorough) of 40 generated test functions each, every function called with 3 argument sets; the program must build (rustc judges the declared numeric kind of every expression) and every printed value must equal the documented semantics computed with Python; plus programs that must stop with the documented error text after printing a marker (C04: 10 zero-divisor forms, C05: 10 out-of-range / zero-step forms; one per quick run, all in a thorough run); shapes that need parentheses around + - * sub-expressions and a few shapes that trip unrelated compiler defects are not generated (listed in tools/diffrun.py)'},
+            {'oracle': 'diffrun::C05', 'cases': 0, 'functions': 30, 'programs_quick': 2, 'programs_thorough': 6, 'function': 'the whole pipeline (lexer, parser, checker, lowering, code generator, project generator, rustc, the program) on index / slice / range forms (objects: variable, field, call result, nested; slices with random bounds and steps; for over slices; range hashes; nested and element assignment; f-strings; match-bound lists)',
+             'bound': 'a seeded SAMPLE (not exhaustive): 2 programs (quick) / 6 programs (thorough) of 30 generated test functions each — alternately as one file and as an IMPORTED module next to the main file —, every function called with 3 argument sets; the program must build (rustc judges the declared numeric kind of every expression) and every printed value must equal the documented semantics computed with Python; plus programs that must stop with the documented error text after printing a marker (C04: 11 zero-divisor forms, C05: 10 out-of-range / zero-step forms; two per quick run, all in a thorough run); shapes that need parentheses around + - * sub-expressions and a few shapes that trip unrelated compiler defects are not generated (listed in tools/diffrun.py)'},
             {'oracle': 'incan::multifile_index', 'cases': 8, 'function': 'IrCodegen multi-file generation (try_generate_multi_file / _nested): lowering of an IMPORTED module',
              'bound': 'a helper module with a model and one function next to a main module that imports it, through both multi-file APIs x 4 reads of a field inside the module (list index, str index, list slice, str slice); each must use the runtime helper for the field\'s type'},
             {'oracle': 'incan::emit_slice', 'cases': 287, 'function': 'parser index_or_slice/parse_slice, lowering of Index/Slice, emit_index_expr, emit_slice_expr',
@@ -114,12 +114,12 @@ PROPS = {
              'bound': 'exhaustive over / // % x int/float left x int/float right x 11 forms (plain, plain with a negated left operand, compound on a local / field / list element, const initializer over literals, bare expression statement, inside int(..), parenthesised operands, call result as left operand, body of a lambda with an untyped parameter); fixed program shapes; checks helper, operand order and promotions in the generated call (a folded const must have Python\'s value)'},
             {'oracle': 'incan::static_type', 'cases': 9408, 'function': 'TypeChecker: annotated let / return / call argument of a binary expression',
              'bound': 'exhaustive over 7 operators x int/float operand kinds x int/float annotation x 7 right-operand forms (variable, const, literal, 0, negative literal, parenthesised, double minus) x 4 binding positions (let, return, argument, const initializer) x bare / parenthesised right-hand side x 3 annotation spellings (int / Int / INT); fixed program shapes; accepted iff the annotation is the kind given by the table'},
-            {'oracle': 'diffrun::C07', 'cases': 0, 'functions': 40, 'programs_quick': 1, 'programs_thorough': 6, 'function': 'the whole pipeline (lexer, parser, checker, lowering, code generator, project generator, rustc, the program) on + - * ** and comparisons over int / float operands in 22 operand forms (annotated let, compound on local / field, zip / enumerate components, natural-precedence nesting)',
-             'bound': 'a seeded SAMPLE (not exhaustive): 1 program (quick) / 6 programs (thorough) of 40 generated test functions each, every function called with 3 argument sets; the program must build (rustc judges the declared numeric kind of every expression) and every printed value must equal the documented semantics computed with Python; plus programs that must stop with the documented error text after printing a marker (C04: 10 zero-divisor forms, C05: 10 out-of-range / zero-step forms; one per quick run, all in a thorough run); shapes that need parentheses around + - * sub-expressions and a few shapes that trip unrelated compiler defects are not generated (listed in tools/diffrun.py)'},
+            {'oracle': 'diffrun::C07', 'cases': 0, 'functions': 30, 'programs_quick': 2, 'programs_thorough': 6, 'function': 'the whole pipeline (lexer, parser, checker, lowering, code generator, project generator, rustc, the program) on + - * ** and comparisons over int / float operands in 22 operand forms (annotated let, compound on local / field, zip / enumerate components, natural-precedence nesting)',
+             'bound': 'a seeded SAMPLE (not exhaustive): 2 programs (quick) / 6 programs (thorough) of 30 generated test functions each — alternately as one file and as an IMPORTED module next to the main file —, every function called with 3 argument sets; the program must build (rustc judges the declared numeric kind of every expression) and every printed value must equal the documented semantics computed with Python; plus programs that must stop with the documented error text after printing a marker (C04: 11 zero-divisor forms, C05: 10 out-of-range / zero-step forms; two per quick run, all in a thorough run); shapes that need parentheses around + - * sub-expressions and a few shapes that trip unrelated compiler defects are not generated (listed in tools/diffrun.py)'},
             {'oracle': 'incan::multifile_promotion', 'cases': 6, 'function': 'IrCodegen multi-file generation (try_generate_multi_file / _nested): lowering of an IMPORTED module',
              'bound': 'a helper module with a model and one function next to a main module that imports it, through both multi-file APIs x 3 arithmetic expressions over int / float fields inside the module; int operands of a float operation must be promoted'},
-            {'oracle': 'incan::static_type_sources', 'cases': 112, 'function': 'TypeChecker: typing of operands that come out of typed containers and builtins (check_builtin_call zip / enumerate, index, dict value, len)',
-             'bound': 'exhaustive over 8 operand sources (zip pair.0 / pair.1, enumerate pair.0 / pair.1, list element int / float, dict value, len()) x 7 operators x int / float annotation; `y: T = SRC <op> 2` accepted iff T is the table kind'},
+            {'oracle': 'incan::static_type_sources', 'cases': 140, 'function': 'TypeChecker: typing of operands that come out of typed containers and builtins (check_builtin_call zip / enumerate, index, dict value, len)',
+             'bound': 'exhaustive over 10 operand sources (an un-annotated const declared BELOW the function, int / float; zip pair.0 / pair.1, enumerate pair.0 / pair.1, list element int / float, dict value, len()) x 7 operators x int / float annotation; `y: T = SRC <op> 2` accepted iff T is the table kind'},
             {'oracle': 'incan::static_type_nested', 'cases': 1500, 'function': 'TypeChecker on nested arithmetic (check_binary applied recursively through check_expr, Paren, Unary)',
              'bound': 'a seeded sample of 1500 random expression trees of depth <= 3 over int/float variables, fields and literals with all seven operators, optionally under a comparison; annotated let; NOT exhaustive'},
             {'oracle': 'incan::emit_promotion', 'cases': 3584, 'function': 'lowering (operand typing, compound-assignment desugaring) + emit_binop_expr for + - * and **',
@@ -150,8 +150,10 @@ PROPS = {
              'bound': 'the real server behind tower_lsp::Server over an in-memory pipe (initialize, initialized, didOpen) on 6 fixed ill-formed documents whose errors follow multi-byte / astral characters or CRLF; every published range (and related-information range) must lie inside the document'},
             {'oracle': 'lsp::dependency_ranges', 'cases': 12, 'function': 'src/lsp/backend.rs collect_dependency_modules (what the server publishes for an imported module that does not lex / parse, and the summary on the import)',
              'bound': 'the real server behind tower_lsp::Server over an in-memory pipe on 3 entry documents (many short lines, a single line, non-ASCII comment lines before the import) x 4 dependency files on disk (one long line with a stray character, non-ASCII text before the error, a parse error on the last of several lines, CRLF); every range published under the dependency URI must lie inside the DEPENDENCY text and start where the front end\'s span starts; every range published for the entry document must lie inside the entry text'},
-            {'oracle': 'lsp::pipe_ranges', 'cases': 9, 'function': 'src/lsp/backend.rs: every request handler the server advertises in its capabilities (present and future: documentSymbol, references, folding ranges, ...)',
-             'bound': 'the real server behind tower_lsp::Server over an in-memory pipe on the same 9 documents: after initialize, each advertised provider is queried (document-wide requests once, position-based ones at every line start, every third character boundary and the end of the text) and every {start, end} range anywhere in the answers must lie inside the document'},
+            {'oracle': 'incan::cli_check_location', 'cases': 6, 'function': 'src/cli/commands.rs check_file / read_source -> format_error (the command-line path from the file on disk to the printed location)',
+             'bound': '6 files written to disk (error at the end of a file without a final newline x4, with one, after multi-byte text) checked with the real check_file; every printed `--> file:line:col` must name a line of that file and a column on it'},
+            {'oracle': 'lsp::pipe_ranges', 'cases': 27, 'function': 'src/lsp/backend.rs: every request handler the server advertises in its capabilities (present and future: documentSymbol, references, folding ranges, ...)',
+             'bound': 'the real server behind tower_lsp::Server over an in-memory pipe on the same 9 documents: after initialize, each advertised provider is queried (document-wide requests once, position-based ones at every line start, every third character boundary and the end of the text) and every {start, end} range anywhere in the answers must lie inside the document; x 3 modes: the document alone, a longer second document with the same path under another URI scheme opened after it, the document edited first (lines inserted at the top, then a line deleted) in the form the advertised sync kind asks for'},
             {'oracle': 'lsp::server_ranges', 'cases': 700, 'function': 'src/lsp/backend.rs hover / goto_definition (call sites of span_to_range and position_to_offset)',
              'bound': 'the real IncanLanguageServer driven with did_open + hover + goto_definition on 9 fixed documents (plain, decorated declarations, multi-byte and astral characters, CRLF, enum, syntax error, no final newline x2, tab-indented with a decorated declaration last) x every character boundary as the cursor; every returned range must lie inside the document'},
             {'oracle': 'lsp::diagnostic_range', 'cases': 13500, 'function': 'compile_error_to_diagnostic',
